@@ -515,6 +515,7 @@ def check_C16(ctx, rep):
     check_peek_blocked_exp(ctx, rep, 'C16.R2')
     check_side_plumbing(ctx, rep, 'C16.R2', only=('peek_blocked_exp', 'peek_scheduled_action', 'do_scheduled_action', 'pick_next', 'peek_queue'))
     check_pick_next_handlers(ctx, rep, 'C16.R2', 'do_scheduled_action', 'peek_scheduled_action')
+    check_pick_priorities(ctx, rep, 'C16.R2', only=('blocking expiry', 'aggregate delay'))
     # a scheduled BlockOutgoing begins blocking only if the peek over the action slots finds it (shared with C17.R4)
     peek_nonstrict(ctx, rep, 'C16.R2', 'peek_scheduled_action', 'action')
     pick_next_consults(ctx, rep, 'C16.R2', 'peek_scheduled_action', 'a scheduled BlockOutgoing that is not looked at never begins blocking')
@@ -1117,6 +1118,8 @@ def check_C17(ctx, rep):
             okm, w = all_paths(st, lambda S: due_fact(ctx, S, lambda l: is_field(l, 'time', 'ScheduledAction'), lambda r: r[0] == 'param' and r[1] in inst))
             rep.ob('C17.R3', sf, 'cleared-slot-is-the-due-one', okm and bool(st), 'slot cleared only when its time equals the target')
     second_search_rule(ctx, rep, 'C17.R3', ds, helpers)
+    if not helpers:
+        check_search_sides(ctx, rep, 'C17.R3', ds, 'action')
     rep.count_exact('C17.R3', 'slot clearing sites in do_scheduled_action', n_clear, 2)
     for (site, evn, evf, flds, ln) in sim_events(da):
         if evn == 'PaddingSent':
@@ -1148,6 +1151,7 @@ def check_C17(ctx, rep):
     pick_next_consults(ctx, rep, 'C17.R4', 'peek_scheduled_action', 'a scheduled action that is not looked at never fires')
     check_side_plumbing(ctx, rep, 'C17.R4', only=('peek_scheduled_action', 'do_scheduled_action', 'pick_next'))
     check_pick_next_handlers(ctx, rep, 'C17.R3', 'do_scheduled_action', 'peek_scheduled_action')
+    check_pick_priorities(ctx, rep, 'C17.R4')
     rep.assumptions += ['that the due action is picked before simulated time passes it is NOT decided beyond eligibility of due-now slots',
                         'every CFG path is treated as feasible']
     return 'handler tables for action timers in the simulator: slot overwrite, Cancel table, fire-once lookup, event translation'
@@ -1348,6 +1352,8 @@ def check_C18(ctx, rep):
                 okh = any(contains(x, lambda y: isinstance(y, tuple) and y and y[0] == 'fld' and y[3] == 'scheduled_internal_timer') for x in a) and any(x == ('param', 3) for x in a)
                 rep.ob('C18.R2', di, 'helper-searches-timer-slots-for-target', okh, '%s(%s)' % (g.name, ', '.join(show(x)[:40] for x in a)))
     second_search_rule(ctx, rep, 'C18.R2', di, helpers)
+    if not helpers:
+        check_search_sides(ctx, rep, 'C18.R2', di, 'machine')
     rep.count_exact('C18.R2', 'slot clearing sites in do_internal_timer', n_clear, 2)
     for (site, evn, evf, flds, ln) in sim_events(da):
         if evn == 'TimerEnd':
@@ -1388,6 +1394,7 @@ def check_C18(ctx, rep):
     pick_next_consults(ctx, rep, 'C18.R4', 'peek_scheduled_internal_timer', 'a running timer that is not looked at never reports TimerEnd')
     check_side_plumbing(ctx, rep, 'C18.R4', only=('peek_scheduled_internal_timer', 'do_internal_timer', 'pick_next'))
     check_pick_next_handlers(ctx, rep, 'C18.R2', 'do_internal_timer', 'peek_scheduled_internal_timer')
+    check_pick_priorities(ctx, rep, 'C18.R4', only=('internal timer', 'queue', 'blocking expiry', 'aggregate delay'))
     rep.assumptions += ['expiry selection order among several due items is NOT decided', 'every CFG path is treated as feasible']
     return 'handler tables for internal timers in the simulator: start rule, store/TimerBegin pairing, fire-once expiry, eligibility of due-now timers'
 
@@ -1685,6 +1692,164 @@ def check_before_helper(ctx, rep, rid):
     rep.count_floor(rid, 'non-false results of before()', n, 1)
 
 
+def param_behind(fa, e, depth=4):
+    """the parameter whose memory the place expression e designates, following iterator / reference locals to their definitions"""
+    ps = {y[1] for y in walk(e) if isinstance(y, tuple) and len(y) == 2 and y[0] == 'param' and isinstance(y[1], int)}
+    if len(ps) == 1:
+        return ps.pop()
+    if ps or depth == 0:
+        return None
+    found = set()
+    for y in walk(e):
+        if isinstance(y, tuple) and len(y) == 2 and y[0] in ('local', 'rec') and isinstance(y[1], int):
+            for (bb, kk, part) in fa.defs().get(y[1], []):
+                p2 = param_behind(fa, fa.def_value(y[1], bb, kk), depth - 1)
+                if p2 is not None:
+                    found.add(p2)
+    return found.pop() if len(found) == 1 else None
+
+
+def check_search_sides(ctx, rep, rid, fn, what):
+    """the client's slots are searched first and reported as the client's, then the server's as the server's: of the two clearing
+    sites one is in the first parameter's vector and sets the side flag true, the other in the second parameter's and sets it false;
+    each records what it found (the slot's machine / action) in the same step"""
+    prog, an = ctx.prog, ctx.an
+    fa = an.get(fn)
+    sites = clearing_sites(fa)
+    sides = []
+    for (kind, pe, site) in sites:
+        side = {1: True, 2: False}.get(param_behind(fa, pe))
+        b = site[0]
+        flags = []
+        found = False
+        for k, st in enumerate(fa.blocks[b]['s']):
+            if 'p' not in st or st['rv']['k'] == 'setdiscr' or st['p']['pr']:
+                continue
+            v = fa.rvalue(st['rv'], (b, k))
+            if fa.fn.local_ty(st['p']['l']) == 'bool' and num(v) is not None:
+                flags.append(bool(num(v)))
+            if isinstance(v, tuple) and v and v[0] == 'agg' and v[2] == 'Some' and fa.fn.local_ty(st['p']['l']).startswith('core::option::Option<'):
+                found = True
+        sides.append(side)
+        rep.ob(rid, fn, 'search:side-flag-matches-the-vector-searched:%s' % ('client' if side else 'server' if side is False else '?'),
+               side is not None and (flags == [side] or (side is False and flags == [])), 'slot of %s cleared, side flag set to %s in the same step' % ('client' if side else 'server', flags))
+        rep.ob(rid, fn, 'search:records-what-it-found:%s' % ('client' if side else 'server'), found, 'the %s found is stored (Some(..)) where its slot is cleared' % what)
+    if len(sites) == 2:
+        rep.ob(rid, fn, 'search:client-then-server', sorted(sides, key=lambda x: not x) == [True, False] and len(set(sides)) == 2, 'vectors searched: %s' % ['client' if x else 'server' for x in sides])
+
+
+def check_stop_conditions(ctx, rep, rid):
+    """the three stop conditions of the main loop mean what they say: the loop is left (after an event was processed) exactly when a
+    configured limit was reached - max_trace_length > 0 and the trace is at least that long, max_sim_iterations > 0 and at least that
+    many iterations ran - or all normal packets are processed and the caller did not ask to continue; otherwise it goes on"""
+    prog, an = ctx.prog, ctx.an
+    from .paths import local_paths
+    sa = sim_fn(prog, 'sim_advanced')
+    fa = an.get(sa)
+    loops = fa.cfg.loops()
+    main = [h for h, body in loops.items() if any(callee_str(f).endswith('pick_next') for (b, f, a, t) in calls(fa) if b in body)]
+    if len(main) != 1:
+        rep.fail_closed(rid, 'sim_advanced: main loop')
+        return
+    h = main[0]
+    body = loops[h]
+    fld = lambda n: (lambda e: is_field(e, n, 'SimulatorArgs'))
+    firsts = [sb for (sb, e) in switch_conditions(fa) if sb in body and contains(e, lambda y: is_field(y, 'max_trace_length', 'SimulatorArgs') or is_field(y, 'max_sim_iterations', 'SimulatorArgs'))]
+    if not firsts:
+        rep.ob(rid, sa, 'stop:limits-tested', False, 'no test of a limit in the main loop')
+        return
+    start = [x for x in firsts if all(fa.cfg.dominates(x, y) for y in firsts)]
+    start = start[0] if start else min(firsts)
+    exits = {y for x in body for (y, l) in fa.cfg.succ[x] if y not in body and fa.cfg.can_reach(start, x)}
+    lp = local_paths(prog, fa, start, {h} | exits)
+    zero = lambda e: is_const(e, 0)
+
+    def reached(S, name, pol):
+        """pol True: (limit > 0 and count >= limit) established; pol False: one of the two refuted"""
+        pos = cmp_int_true(S, 'lt', zero, fld(name)) or cmp_int_true(S, 'ne', fld(name), zero)
+        npos = cmp_int_true(S, 'le', fld(name), zero) or cmp_int_true(S, 'eq', fld(name), zero)
+        other = lambda e: not fld(name)(e) and not zero(e)
+        ge = cmp_int_true(S, 'le', fld(name), other)
+        lt = cmp_int_true(S, 'lt', other, fld(name))
+        return (pos and ge) if pol else (npos or lt)
+
+    def normal_done(S, pol):
+        cont = [f[2] for f in S if f[0] == 'btrue' and fld('continue_after_all_normal_packets_processed')(f[1])]
+        nnp = [f[3] for f in S if f[0] == 'bcall' and f[1].endswith('no_normal_packets')]
+        if pol:
+            return cont == [False] and nnp == [True]
+        return cont == [True] or nnp == [False]
+    n_exit = n_back = 0
+    bad = None
+    for (e, S) in lp:
+        if e == h:
+            n_back += 1
+            ok = reached(S, 'max_trace_length', False) and reached(S, 'max_sim_iterations', False) and normal_done(S, False)
+        else:
+            n_exit += 1
+            ok = reached(S, 'max_trace_length', True) or reached(S, 'max_sim_iterations', True) or normal_done(S, True)
+        if not ok and bad is None:
+            bad = ('goes on' if e == h else 'stops', S)
+    rep.ob(rid, sa, 'stop:exactly-when-a-limit-is-reached-or-all-normal-packets-are-done', bad is None and n_exit >= 3 and n_back >= 1,
+           'paths that stop: %d, that go on: %d' % (n_exit, n_back) + ('' if bad is None else '; the loop %s on a path with %s' % (bad[0], show_facts(bad[1]))))
+
+
+PRIORITY = [
+    # (what is picked, the call / construct that marks the pick, its source, the sources it must not be later than)
+    ('aggregate delay', 'pop_aggregate_delay', 'peek_aggregate_delay', ('peek_scheduled_action', 'peek_scheduled_internal_timer', 'peek_blocked_exp', 'peek_queue')),
+    ('queue', 'SimQueue::pop', 'peek_queue', ('peek_scheduled_action', 'peek_scheduled_internal_timer')),
+    ('internal timer', 'do_internal_timer', 'peek_scheduled_internal_timer', ('peek_scheduled_action',)),
+]
+
+
+def check_pick_priorities(ctx, rep, rid, only=None):
+    """pick_next acts on a source only when that source is the earliest: the step that consumes source X is dominated by the true
+    edges of X <= Y for every source Y that could still be due earlier (the ones ranked after it)"""
+    prog, an = ctx.prog, ctx.an
+    pn = sim_fn(prog, 'pick_next')
+    pa = an.get(pn)
+
+    def src_of(e):
+        while isinstance(e, tuple) and e and e[0] in ('refv', 'ref', 'load', 'pick', 'fld'):
+            e = e[1]
+        for n in PICK_SOURCES:
+            if is_call(e, n):
+                return n
+        return None
+    conds = []
+    for (sb, e) in switch_conditions(pa):
+        e2 = strip_sites(e)
+        op = None
+        if e2[0] == 'call' and e2[1].endswith('PartialOrd::le'):
+            op, l, r = 'le', e2[2][0], e2[2][1]
+        elif e2[0] == 'bin' and e2[1] == 'Le':
+            op, l, r = 'le', e2[2], e2[3]
+        if op and src_of(l) and src_of(r):
+            for (y, lab) in pa.cfg.succ[sb]:
+                pol = (lab[1] != '0') if lab[0] == 'sw' else ('0' in lab[1])
+                if pol and [p for (p, l2) in pa.cfg.pred[y]] == [(sb)] or (pol and len(pa.cfg.pred[y]) == 1):
+                    conds.append((src_of(l), src_of(r), y))
+    sites = {}
+    for (b, f, a, t) in calls(pa):
+        cs = callee_str(f)
+        for (what, mark, src, others) in PRIORITY:
+            if cs.endswith(mark):
+                sites.setdefault(what, []).append(b)
+    # the blocking expiry has no call of its own: the step that clears blocking_until
+    for (pe, v, site) in field_stores(pa, 'blocking_until', 'SimState'):
+        sites.setdefault('blocking expiry', []).append(site[0])
+    table = list(PRIORITY) + [('blocking expiry', None, 'peek_blocked_exp', ('peek_scheduled_action', 'peek_scheduled_internal_timer', 'peek_queue'))]
+    for (what, mark, src, others) in table:
+        if only is not None and what not in only:
+            continue
+        bs = sites.get(what, [])
+        rep.ob(rid, pn, 'priority:%s:site' % what, bool(bs), 'sites: %d' % len(bs))
+        for b in bs:
+            for o in others:
+                ok = any(x == src and y == o and pa.cfg.dominates(tb, b) for (x, y, tb) in conds)
+                rep.ob(rid, pn, 'priority:%s-not-later-than:%s' % (what, o.replace('peek_', '')), ok, '%s is acted on only behind %s <= %s' % (what, src, o))
+
+
 def check_C19(ctx, rep):
     prog, an = ctx.prog, ctx.an
     rep.rule('C19.R1', 'ambient effects reachable from sim_advanced are exactly the sanctioned ones: rand::thread_rng in SimState::new only on the '
@@ -1935,6 +2100,7 @@ def check_C19(ctx, rep):
     check_before_helper(ctx, rep, 'C19.R6')
     check_side_plumbing(ctx, rep, 'C19.R5')
     check_pick_next_none(ctx, rep, 'C19.R4')
+    check_stop_conditions(ctx, rep, 'C19.R4')
     rep.rule('C19.R7', 'a copy of the simulator\'s inputs and state is a faithful copy: every Clone impl of the simulator crate (SimQueue and its '
              'event queues, SimEvent, ScheduledAction, the network model, SimulatorArgs ...) is the compiler-derived field-wise clone, so that '
              'running a parsed queue and running its clone are the same simulation')
